@@ -395,6 +395,24 @@ class CNP:
     def exp(p):
         return ExpArr(p.c)
 
+    @staticmethod
+    def multiply(a, b, out=None, **kw):
+        # np.multiply(filt, phase, out=...): out=None allocates the (complex128) product, out=filt is the in-place form
+        # with its same-kind casting rule
+        if not isinstance(a, Filt):
+            a, b = b, a
+        if out is None:
+            return a * b
+        if out is a:
+            return a.__imul__(b)
+        if isinstance(out, Filt) and out.n == a.n:
+            if out.dtype != 'c16':
+                raise TypeError("Cannot cast ufunc 'multiply' output from dtype('complex128') to dtype('%s') with casting rule 'same_kind'" % out.dtype)
+            out.vals = (a * b).vals
+            out.written = True
+            return out
+        raise symex.Unsupported('np.multiply with this out argument')
+
 
 def run_circshift(cfg):
     D = cfg['D']
